@@ -201,8 +201,9 @@ class Env:
             raise HarnessError(f"cannot create table: {e}") from e
         self.tables.append(table)
         recs = []
+        shift = 1 if variant == "shifted" else 0
         for r in data:
-            rec = {phys[c]: r[c] for c in cols} or {"dummy_": 0}
+            rec = {phys[c]: r[c] - shift for c in cols} or {"dummy_": 0}
             if variant == "where":
                 rec["keep_"] = 1
             if variant == "extra":
@@ -225,6 +226,9 @@ class Env:
         if variant == "where":
             where.append(from_clause.c["keep_"] == 1)
         available = {c: from_clause.c[phys[c]] for c in cols}
+        if variant == "shifted":
+            # logical columns that are SQL expressions over the physical ones
+            available = {c: (from_clause.c[phys[c]] + 1) for c in cols}
         if variant == "extra":
             # the FROM clause offers more logical columns than the leaf relation declares (legal: columns_available
             # describes the FROM clause, the relation's columns are a subset); the extra ones hold a sentinel value
